@@ -8,20 +8,25 @@ from ..util import switch_table, find_switches, is_assign
 from . import C05
 
 EXPLANATION = (
-    "Static decision of structural clauses of C06: (1) unimplemented features are rejected: the codec "
-    "switch of decompress_page, the value-encoding switch of carquet_read_data_page_v1 and the "
-    "physical-type switch of carquet_decode_plain have error defaults and arms only for what is "
-    "decoded; the page types admitted by each loader are exactly those whose header member is consumed "
-    "downstream (DATA_PAGE -> data_page_header, DICTIONARY_PAGE -> dictionary_page_header; "
-    "DATA_PAGE_V2 is refused); (2) level bit width: the reader's and the writer's bit_width_for_max "
-    "are evaluated exhaustively for every level 0..32767 and equal ceil(log2(max+1)); the width handed "
-    "to the level decoder is bit_width_for_max(max_rep/def_level) of the column and the dictionary "
-    "index width is the page's first byte; (3) the reader's level table (shared with C17.1); (4) enum "
-    "tags equal parquet.thrift (shared with C05.2) and every Thrift wire-type tag equals the compact "
-    "protocol; (5) decompress_page, executed once per codec value and size relation, copies raw bytes only for "
-    "UNCOMPRESSED and calls exactly that codec's decompressor otherwise; (6) no decoder-side function assembles a multi-byte integer "
-    "with the big-endian accumulation idiom (accumulator shifted left by whole bytes, then OR-ed with the "
-    "next byte): every integer of the format is little-endian. Decides these clauses, not that decoded values/levels equal the stored ones.")
+    "Static decision of structural clauses of C06: (1) unimplemented features are rejected, by abstract "
+    "execution per enum value (and values outside the enum): decompress_page per codec, "
+    "carquet_decode_plain per physical type, carquet_read_data_page_v1 per value encoding (PLAIN to the "
+    "PLAIN dispatcher, the dictionary encodings to the index decoder and only with a dictionary loaded, "
+    "everything else refused without decoding); the page types admitted by each loader are exactly those "
+    "whose header member is consumed downstream (DATA_PAGE_V2 is refused); (2) level bit width: the "
+    "reader's bit_width_for_max is evaluated for every level 0..32767, the writer's width (the function, "
+    "or the value handed to the RLE encoder by encode_levels) likewise; carquet_read_data_page_v1 "
+    "executed over max levels x wanted arrays decodes repetition then definition levels from their "
+    "length-prefixed blocks with the bit width of the column's max level into the matching array, values "
+    "after them, and dictionary indices with the width stored in the first value byte; (3) the reader's "
+    "level table (shared with C17.1); (4) enum tags equal parquet.thrift and every Thrift wire-type tag "
+    "equals the compact protocol; (5) the codec tag alone decides how page bytes are interpreted "
+    "(decompress_page and the four loaders per codec value and size relation); (6) no decoder-side "
+    "function assembles a multi-byte integer big-endian; (7) page geometry, by the loader traces: after a "
+    "dictionary page the first data page is looked for at dictionary offset + header size + compressed "
+    "(stored) size whatever the codec, a data page header is read at data_start_offset + bytes already "
+    "consumed, and the loader records header size and stored size as the amounts the cursor advances by. "
+    "Decides these clauses, not that decoded values/levels equal the stored ones.")
 
 PR = "src/reader/page_reader.c"
 PW = "src/writer/page_writer.c"
